@@ -5,6 +5,7 @@ import (
 	"encoding/json"
 	"encoding/xml"
 	"fmt"
+	"html"
 	"os"
 	"os/exec"
 	"path/filepath"
@@ -68,6 +69,12 @@ type cliQuery struct {
 
 func cliQueries(q string, variant int) cliQuery {
 	switch q {
+	case "bad":
+		return cliQuery{expr: []string{"//a[", "//a b", "1 +", "//a]"}[variant%4]}
+	case "err":
+		return cliQuery{expr: "//a[. = $nosuch] | //b"}
+	case "bool":
+		return cliQuery{expr: "count(//a) > 0"}
 	case "empty":
 		return cliQuery{expr: "//nosuch"}
 	case "num":
@@ -175,6 +182,24 @@ func xmlNameable(c xsel.Cursor) bool {
 	return true
 }
 
+// tagsToSpaces replaces every tag of a serialisation whose names are not XML names by a NUL (so that what is left is
+// character data with its references)
+func tagsToSpaces(s string) string {
+	var b strings.Builder
+	in := false
+	for _, r := range s {
+		switch {
+		case r == '<':
+			in = true
+		case r == '>' && in:
+			in = false
+		case !in:
+			b.WriteRune(r)
+		}
+	}
+	return b.String()
+}
+
 func xmlRecordMatches(record string, c xsel.Cursor) (bool, string) {
 	if strings.Contains(record, "\n") {
 		return false, "record spans several lines"
@@ -186,10 +211,15 @@ func xmlRecordMatches(record string, c xsel.Cursor) (bool, string) {
 	if !xmlNameable(c) {
 		// names of the JSON mapping (#obj, #arr) and of HTML tag soup are not XML names: no XML text can parse back to
 		// such a node, so only the shape of the record (one line, an element) is checked
-		if strings.HasPrefix(record, "<") {
-			return true, ""
+		// ... and its character data (the record with the tags taken out and the references resolved) must be the
+		// node's string-value
+		if !strings.HasPrefix(record, "<") {
+			return false, "record is not a serialisation at all"
 		}
-		return false, "record is not a serialisation at all"
+		if got, want := html.UnescapeString(tagsToSpaces(record)), xsel.GetCursorString(c); got != want {
+			return false, fmt.Sprintf("character data %q, string-value of the node %q", got, want)
+		}
+		return true, ""
 	}
 	back, err := xsel.ReadXml(strings.NewReader("<w>" + record + "</w>"))
 	if err != nil {
@@ -215,6 +245,7 @@ func cliCase(line string, rep *Report, fnd *Findings) {
 		Tree  []cliEntry    `json:"tree"`
 		Flags cliFlags      `json:"flags"`
 		Spec  []cliFileSpec `json:"spec"`
+		GDiag bool          `json:"gdiag"`
 	}
 	if err := json.Unmarshal([]byte(line), &gl); err != nil {
 		rep.infra("bad C20 line: " + err.Error())
@@ -299,6 +330,15 @@ func cliCase(line string, rep *Report, fnd *Findings) {
 		fail("cli", "the command failed: "+err.Error()+" "+se.String())
 		return
 	}
+	if gl.GDiag {
+		// the expression is rejected before any input is touched: a diagnostic, and not one byte of output
+		if so.Len() != 0 {
+			fail("output", "output although the expression is not an XPath expression: "+so.String())
+		}
+		if se.Len() == 0 {
+			fail("diag", "no diagnostic for a malformed expression")
+		}
+	}
 	// expected stdout lines per file, from the specification (shape) and the library (texts)
 	remaining := strings.Split(strings.TrimSuffix(so.String(), "\n"), "\n")
 	if so.Len() == 0 {
@@ -322,7 +362,7 @@ func cliCase(line string, rep *Report, fnd *Findings) {
 		if e.Cls == "stdinxml" {
 			diagKey = "stdin"
 		}
-		if sp.Diag && !strings.Contains(se.String(), diagKey) {
+		if sp.Diag && !strings.Contains(se.String(), diagKey) && !(e.Cls == "stdinxml" && strings.Contains(se.String(), "file -:")) {
 			fail("diag", "no diagnostic on stderr for "+paths[i]+" ("+e.Cls+")")
 		}
 		var want []string
